@@ -350,6 +350,50 @@ func FuzzC15Commit(f *testing.F) {
 	})
 }
 
+// c07EndToEnd offers one L1 deposit message (sender and bridge id are set to a funded user and the real
+// bridge); whatever L1 accepts is relayed as the executor would relay it and must end on L2 in outcome
+// A or B, and the bridge must stay live.
+func c07EndToEnd(tc *twoChain, m *ophosttypes.MsgInitiateTokenDeposit) (accepted bool, err error) {
+	m.Sender, m.BridgeId = tc.users[0].Str, tc.bridgeID
+	if m.Amount.Amount.IsNil() {
+		return false, nil
+	}
+	// the depositor owns what it deposits (when that can be expressed as a balance at all)
+	if m.Amount.IsValid() && m.Amount.IsPositive() {
+		if !m.Amount.Amount.IsUint64() {
+			return false, nil
+		}
+		tc.l1.Fund(tc.users[0].Addr, m.Amount)
+	}
+	r := tc.l1.Deliver(m)
+	if !r.OK() {
+		return false, nil
+	}
+	evs := henv.EventAttrs(r.Events, ophosttypes.EventTypeInitiateTokenDeposit)
+	if len(evs) != 1 {
+		return true, fmt.Errorf("an accepted L1 deposit emitted %d deposit events", len(evs))
+	}
+	p := parseDepositEvent(evs[0], uint64(tc.l1.Ctx.BlockHeight()))
+	var toAddr sdk.AccAddress
+	if a, err := sdk.AccAddressFromBech32(p.To); err == nil {
+		toAddr = a
+	}
+	cs := &c07Case{tc: tc, msg: relayMsg(tc.executors[0].Str, p), toClass: "end-to-end", toAddr: toAddr, signer: tc.users[1], payload: "multi-signer", expect: "either",
+		hookMaxGas: opchildtypes.DefaultHookMaxGas, desc: fmt.Sprintf("L1 deposit of %q%s to %q with %d bytes of hook data", p.Amount, p.L1Denom, truncStr(p.To, 30), len(p.Data)), sent: map[string]math.Int{}, withdrawn: math.ZeroInt()}
+	pre := cs.snap(tc.l2)
+	tc.l2.Fault.Reset(0, false)
+	res := tc.l2.DeliverWithGas(cs.msg, c07HandlerGas+cs.hookMaxGas)
+	if _, err := cs.judge(tc.l2, pre, res, false); err != nil {
+		return true, fmt.Errorf("%v (%s)", err, cs.desc)
+	}
+	var lerr error
+	branchL2(tc.l2, func(b *henv.L2) { lerr = cs.liveness(b) }) // the probe deposit does not exist on L1: on a branch
+	if lerr != nil {
+		return true, fmt.Errorf("bridge blocked: %v (%s)", lerr, cs.desc)
+	}
+	return true, nil
+}
+
 // FuzzC07Deposit: the fuzzer owns the bytes of the L1 message (MsgInitiateTokenDeposit: recipient
 // string, coin, hook data; sender and bridge id are fixed to a funded user and the real bridge).
 // Whatever L1 accepts is relayed as the executor would relay it and must end on L2 in outcome A or
@@ -390,40 +434,8 @@ func FuzzC07Deposit(f *testing.F) {
 		if err := tc.l1.Enc.Marshaler.Unmarshal(raw, &m); err != nil {
 			return
 		}
-		m.Sender, m.BridgeId = tc.users[0].Str, tc.bridgeID
-		if m.Amount.Amount.IsNil() || !m.Amount.IsValid() {
-			return
-		}
-		// the depositor owns what it deposits
-		if m.Amount.IsPositive() {
-			if !m.Amount.Amount.IsUint64() {
-				return
-			}
-			tc.l1.Fund(tc.users[0].Addr, m.Amount)
-		}
-		r := tc.l1.Deliver(&m)
-		if !r.OK() {
-			return
-		}
-		evs := henv.EventAttrs(r.Events, ophosttypes.EventTypeInitiateTokenDeposit)
-		if len(evs) != 1 {
-			t.Fatalf("C07 violated: an accepted L1 deposit emitted %d deposit events\nmessage %x", len(evs), raw)
-		}
-		p := parseDepositEvent(evs[0], uint64(tc.l1.Ctx.BlockHeight()))
-		var toAddr sdk.AccAddress
-		if a, err := sdk.AccAddressFromBech32(p.To); err == nil {
-			toAddr = a
-		}
-		cs := &c07Case{tc: tc, msg: relayMsg(tc.executors[0].Str, p), toClass: "fuzz", toAddr: toAddr, signer: tc.users[1], payload: "multi-signer", expect: "either",
-			hookMaxGas: opchildtypes.DefaultHookMaxGas, desc: fmt.Sprintf("fuzz deposit %x", raw), sent: map[string]math.Int{}, withdrawn: math.ZeroInt()}
-		pre := cs.snap(tc.l2)
-		tc.l2.Fault.Reset(0, false)
-		res := tc.l2.DeliverWithGas(cs.msg, c07HandlerGas+cs.hookMaxGas)
-		if _, err := cs.judge(tc.l2, pre, res, false); err != nil {
+		if _, err := c07EndToEnd(tc, &m); err != nil {
 			t.Fatalf("C07 violated: %v\nL1 message %x", err, raw)
-		}
-		if err := cs.liveness(tc.l2); err != nil {
-			t.Fatalf("C07 violated (bridge blocked): %v\nL1 message %x", err, raw)
 		}
 	})
 }
